@@ -563,6 +563,14 @@ func run(c *wk.Case) {
 	}
 	raw := g.Info(gsub)
 	damage := t.Chance(1, 2)
+	var ruleSeqs [][]glyph.ID
+	if gsub && t.Chance(1, 8) {
+		// one contextual rule whose nested actions change the length of the
+		// sequence under other flags than its own (simgen.NestedMergeGsub)
+		raw, gd, n, ruleSeqs = simgen.NestedMergeGsub(t)
+		damage = damage && t.Chance(1, 3)
+		c.Count("tables_built_around_a_length-changing_nested_rule", 1)
+	}
 	info, ok := gtabThroughDisk(c, raw, tp, damage)
 	if !ok {
 		c.Trivial()
@@ -598,6 +606,14 @@ func run(c *wk.Case) {
 	calls := t.Range(2, 8)
 	for k := 0; k < calls; k++ {
 		in := genSeq(t, hot, n)
+		if len(ruleSeqs) > 0 && t.Chance(1, 2) {
+			// text that follows the rule and may end in the middle of a match
+			gg := ruleSeqs[t.Draw(len(ruleSeqs))]
+			in = make([]glyph.Info, len(gg))
+			for i, gid := range gg {
+				in[i] = glyph.Info{GID: gid, Text: []rune{rune(0x1000 + i)}}
+			}
+		}
 		c.Logf("call %d: Apply([%s]) lookups %v", k, seqString(in), lookups)
 		got := applyOnce(c, "Context.Apply", reused, in, 0)
 		fresh := applyOnce(c, "Context.Apply(fresh)", gtab.NewContext(info.LookupList, gd, lookups), in, 0)
